@@ -166,6 +166,45 @@ def frontToJson (r : FrontResult) : Json :=
     ("groups", Json.arr (r.groups.map fun g => Json.arr (g.map fun c =>
       Json.mkObj [("pos", c.pos), ("text", c.text)]).toArray).toArray)]
 
+def outcomeBoolJson : Outcome Bool → Json
+  | .ok b => Json.str (if b then "true" else "false")
+  | .error _ => Json.str "error"
+  | .panic _ => Json.str "panic"
+
+def parseEngine (j : Json) : Except String Engine := do
+  let regex ← (← getArr j "regex").toList.mapM fun r => do
+    pure ((← getStr r "expr", ← getStr r "subject"), (← getBool r "compiles", ← getBool r "match"))
+  pure { compiles := fun e => match regex.find? (fun r => r.1.1 == e) with
+           | some r => r.2.1
+           | none => false
+         search := fun e s => match regex.find? (fun r => r.1 == (e, s)) with
+           | some r => r.2.2
+           | none => false }
+
+/-- `{"op":"pm","pattern":p,"case":c,"queries":[{"ident":..,"case":..}],"regex":[..]}` -/
+def handlePM (j : Json) : Except String Json := do
+  let eng ← parseEngine j
+  let pattern ← getStr j "pattern"
+  let c ← getBool j "case"
+  let qs ← (← getArr j "queries").toList.mapM fun q => do pure (← getStr q "ident", ← getBool q "case")
+  match PM.new eng pattern c with
+  | none => pure (Json.mkObj [("new", "error"), ("answers", Json.arr #[]),
+      ("exprs", strArr [compileExpr pattern true, compileExpr pattern false])])
+  | some m =>
+    pure (Json.mkObj [("new", "ok"), ("answers", Json.arr ((runQueries eng m qs).map outcomeBoolJson).toArray),
+      ("exprs", strArr [compileExpr pattern true, compileExpr pattern false]),
+      ("subjects", strArr (qs.map fun q => matchSubject q.1 q.2))])
+
+/-- `{"op":"ident","pattern":p,"queries":[{"ident":..,"case":..}]}`: IdentMatcher.Match / CompareFieldName -/
+def handleIdent (j : Json) : Except String Json := do
+  let pattern ← getStr j "pattern"
+  let qs ← (← getArr j "queries").toList.mapM fun q => do pure (← getStr q "ident", ← getBool q "case")
+  pure (Json.mkObj [
+    ("answers", Json.arr ((qs.map fun q => Json.bool (identMatch pattern q.1 q.2)).toArray)),
+    ("paths", strArr (identPaths pattern)),
+    ("names", strArr ((identPaths pattern).map nameAt)),
+    ("getters", Json.arr (((identPaths pattern).map fun s => Json.bool (forGetter s)).toArray))])
+
 def handle (line : String) : String :=
   match Json.parse line with
   | .error e => (Json.mkObj [("error", s!"json: {e}")]).compress
@@ -175,12 +214,20 @@ def handle (line : String) : String :=
       match j.getObjVal? "facts" >>= parseFacts with
       | .ok f => (frontToJson (front f)).compress
       | .error e => (Json.mkObj [("error", s!"facts: {e}")]).compress
+    | .ok (.str "pm") =>
+      match handlePM j with
+      | .ok r => r.compress
+      | .error e => (Json.mkObj [("error", s!"pm: {e}")]).compress
+    | .ok (.str "ident") =>
+      match handleIdent j with
+      | .ok r => r.compress
+      | .error e => (Json.mkObj [("error", s!"ident: {e}")]).compress
     | _ => (Json.mkObj [("error", "unknown op")]).compress
 
 partial def loop (h : IO.FS.Stream) (out : IO.FS.Stream) : IO Unit := do
   let line ← h.getLine
   if line.isEmpty then return ()
-  if line.trim.isEmpty then loop h out else
+  if line.trimAscii.isEmpty then loop h out else
   out.putStrLn (handle line)
   out.flush
   loop h out
